@@ -392,6 +392,7 @@ func checkHeaderInfoGetters(w *World, r *Report) {
 // H3
 func checkConfigMapping(w *World, r *Report) {
 	e := newTermEnv(w)
+	e.valueHelpers = true
 	type m struct {
 		pkg, fn, typPkg, typ string
 		want                 map[string]string
